@@ -45,6 +45,7 @@ func (s *Sim) opConnect(op *Op) {
 	sl.aliasOut = map[uint16]string{}
 	sl.aliasIn = map[uint16]string{}
 	sl.inflight = map[uint16]*OutMsg{}
+	sl.resumePIDs = map[uint16]bool{}
 	sl.ownQ2 = map[uint16]bool{}
 	sl.otherQ2 = map[uint16]bool{}
 	sl.RecvMax, sl.TAM, sl.MPS, sl.RPI0 = 0, 0, 0, false
@@ -143,6 +144,7 @@ func (s *Sim) opConnect(op *Op) {
 			if o.Pubrec {
 				sl.expect(&Expect{Kind: rc.PUBREL, PID: o.PID, Out: o, Rule: "C09/not-resent-after-reconnect", Attrs: map[string]string{"what": "PUBREL", "was_deferred": fmt.Sprint(o.WasDeferred)}, What: fmt.Sprintf("PUBREL id %d for %s after reconnect", o.PID, o.M.ID), Step: m.Step, SP: -1})
 				sl.inflight[o.PID] = o
+				sl.resumePIDs[o.PID] = true
 				continue
 			}
 			dup := -1
@@ -348,6 +350,12 @@ func (s *Sim) opPublish(op *Op) {
 			m.count("qos2_retransmissions")
 			return
 		}
+	}
+	if rm := s.Cfg.ServerRecvMax; rm > 0 && op.QoS > 0 && len(sess.InQ2) >= int(rm) {
+		// a well-behaved client: as many own QoS 2 exchanges are incomplete as the broker's Receive Maximum allows, so
+		// nothing that needs an acknowledgement may be started now
+		op.QoS, p.QoS, p.PacketID, pid = 0, 0, 0, 0
+		m.count("own_publish_downgraded_to_respect_server_receive_maximum")
 	}
 	msg := s.newMsg(op, sl.ClientID)
 	p.Payload = msg.Payload
